@@ -298,6 +298,10 @@ def check(ctx: Ctx) -> None:
         ctx.unknown("R13.framer-length", f"{PK}::ccsds_generator", str(e))
 
     ctx.guard("R13.w", PK, witness_search, ctx, ctx.stats.get("tier") == "thorough")
+    # "the framer re-frames it as that single packet ... for every packet the framer yields": the framing table of C02 (every
+    # source kind, read sizes, fragmentations, prefix 0/3) applied to packets built here
+    from . import framer as F
+    ctx.guard("R13.f", F.GEN, F.framing_cases, ctx, "R13.f", truncation=False, level=0)
     from ..core import REFUTED, UNKNOWN
     if any(o.verdict == REFUTED and o.rule == "R13.w" for o in ctx.obs):
         for o in ctx.obs:
@@ -447,7 +451,7 @@ SPEC = PropSpec(
     title="Primary-header construction and header accessors are exact inverses",
     check=check,
     floors={"R13.accessor": 6, "R13.pack": 6, "R13.range": 7, "R13.reject-type": 7, "R13.length-term": 1,
-            "R13.framer-length": 1, "R13.to-bytes": 1, "R13.concat": 1, "R13.w": 1},
+            "R13.framer-length": 1, "R13.to-bytes": 1, "R13.concat": 1, "R13.w": 1, "R13.f": 10},
     fallback={r: ("R13.w",) for r in ("R13.pack", "R13.range", "R13.concat", "R13.length-term", "R13.to-bytes",
                                       "R13.reject-type", "R13.reject-dominates", "R13.framer-length")},
     explanation=("Table agreement by constant folding: the 48-bit OR-tree of create_ccsds_packet (field -> shift), "
